@@ -599,3 +599,96 @@ Proof.
   rewrite Hrm. split; [symmetry; apply ref_remove_splice; assumption|].
   apply (sorted_splice l id); [assumption|apply split3_le1; assumption|constructor].
 Qed.
+
+(* ------------------------------------------------------------------ *)
+(* F. uint32 values, ResetOptionsTo, Clone                             *)
+
+Lemma be_bytes_uint v : 0 <= v < 4294967296 ->
+  be_bytes (Z.to_nat (uint_len v)) v = uint_bytes v.
+Proof.
+  intros Hv.
+  assert (B1 : be_bytes 1 v = [(v / 1) mod 256]) by reflexivity.
+  assert (B2 : be_bytes 2 v = [(v / 256) mod 256; (v / 1) mod 256]) by reflexivity.
+  assert (B3 : be_bytes 3 v = [(v / 65536) mod 256; (v / 256) mod 256; (v / 1) mod 256]) by reflexivity.
+  assert (B4 : be_bytes 4 v = [(v / 16777216) mod 256; (v / 65536) mod 256; (v / 256) mod 256; (v / 1) mod 256]) by reflexivity.
+  unfold uint_bytes, uint_len.
+  destruct (Z.leb_spec v 0); [reflexivity|].
+  destruct (Z.ltb_spec v 256).
+  { change (Z.to_nat 1) with 1%nat. rewrite B1. repeat (f_equal; try lia). }
+  destruct (Z.ltb_spec v 65536).
+  { change (Z.to_nat 2) with 2%nat. rewrite B2. repeat (f_equal; try lia). }
+  destruct (Z.ltb_spec v 16777216).
+  { change (Z.to_nat 3) with 3%nat. rewrite B3. repeat (f_equal; try lia). }
+  change (Z.to_nat 4) with 4%nat. rewrite B4. repeat (f_equal; try lia).
+Qed.
+
+Lemma encode_uint32_spec b v : 0 <= v < 4294967296 ->
+  encode_uint32 b v = if b <? uint_len v then (uint_len v, ETooSmall, []) else (uint_len v, ENone, uint_bytes v).
+Proof.
+  intros Hv. unfold encode_uint32, max1ByteNumber, max2ByteNumber, max3ByteNumber.
+  assert (E : (if v =? 0 then 0 else if v <=? 255 then 1 else if v <=? 65535 then 2
+               else if v <=? 16777215 then 3 else 4) = uint_len v).
+  { unfold uint_len. bdestr; lia. }
+  rewrite E. destruct (b <? uint_len v); [reflexivity|]. rewrite be_bytes_uint by assumption. reflexivity.
+Qed.
+
+Definition fold_add (ins acc : list opt) : list opt := fold_left (fun a x => add a x) ins acc.
+Definition fold_ref (ins acc : list opt) : list opt := fold_left (fun a x => ref_add x a) ins acc.
+
+Lemma fold_add_ref ins : forall acc, sorted acc -> fold_add ins acc = fold_ref ins acc /\ sorted (fold_add ins acc).
+Proof.
+  induction ins as [|x ins IH]; intros acc Hs; [split; [reflexivity|assumption]|].
+  unfold fold_add, fold_ref in *. cbn [fold_left]. destruct (add_refines acc x Hs) as [E S].
+  rewrite <- E. apply IH. assumption.
+Qed.
+
+Lemma sum_len_from ins : forall u, fold_left (fun a o => a + len (oval o)) ins u = u + sum_len ins.
+Proof.
+  unfold sum_len. induction ins as [|x ins IH]; intros u; cbn [fold_left]; [lia|].
+  rewrite IH, (IH (0 + _)). lia.
+Qed.
+
+Lemma reset_loop_spec ins : forall opts b u,
+  reset_loop ins opts b u = (fold_add ins opts, u + sum_len ins, ENone).
+Proof.
+  induction ins as [|x ins IH]; intros opts b u; cbn [reset_loop].
+  - unfold sum_len, fold_add. cbn [fold_left]. repeat f_equal. lia.
+  - rewrite IH. destruct x as [i v]. cbn [oid oval fst snd]. unfold fold_add. cbn [fold_left].
+    f_equal. f_equal. unfold sum_len at 2. cbn [fold_left oval snd].
+    rewrite (sum_len_from ins (0 + len v)). lia.
+Qed.
+
+Lemma reset_options_to_spec l b ins :
+  reset_options_to l b ins =
+    if b <? sum_len ins then (l, sum_len ins, ETooSmall) else (fold_ref ins [], sum_len ins, ENone).
+Proof.
+  unfold reset_options_to. destruct (b <? sum_len ins); [reflexivity|].
+  rewrite reset_loop_spec. destruct (fold_add_ref ins [] sorted_nil) as [E _]. rewrite E. reflexivity.
+Qed.
+
+Lemma sorted_fold_ref ins : sorted (fold_ref ins []).
+Proof. destruct (fold_add_ref ins [] sorted_nil) as [E S]. rewrite <- E. assumption. Qed.
+
+(* inserting the elements of a sorted list one by one rebuilds it *)
+Lemma fold_ref_sorted l : forall acc, sorted (acc ++ l) -> fold_ref l acc = acc ++ l.
+Proof.
+  induction l as [|x l IH]; intros acc Hs; [unfold fold_ref; cbn; rewrite app_nil_r; reflexivity|].
+  unfold fold_ref in *. cbn [fold_left].
+  assert (E : ref_add x acc = acc ++ [x]).
+  { rewrite <- (app_nil_r acc) at 1. apply ref_add_app; [|intros y r Hy; discriminate].
+    apply Forall_nthz. intros k Hk.
+    assert (H := Hs k (len acc)). rewrite nthz_app_l in H by lia.
+    rewrite nthz_app_r in H by lia. rewrite Z.sub_diag, nthz_0 in H. apply H; try lia.
+    rewrite len_app, len_cons. pose proof (len_nonneg l). lia. }
+  rewrite E. rewrite IH; rewrite <- app_assoc; [reflexivity|assumption].
+Qed.
+
+Lemma clone_spec l : sorted l -> clone l = (l, ENone).
+Proof.
+  intros Hs. unfold clone. rewrite reset_options_to_spec.
+  assert (E : fold_ref l [] = l) by (apply (fold_ref_sorted l []); assumption).
+  destruct (Z.ltb_spec 64 (sum_len l)).
+  - cbn [Z.eqb ETooSmall]. rewrite reset_options_to_spec.
+    destruct (Z.ltb_spec (64 + (sum_len l - 64)) (sum_len l)); [lia|]. rewrite E. reflexivity.
+  - rewrite E. reflexivity.
+Qed.
